@@ -408,6 +408,65 @@ theorem sender_receiver_agree (b l e aL aS nL n sbn : Nat) (hb : 0 < b) (he : 0 
     omega
   · rw [hfit.2]; exact hrec
 
+/-- (8) The composition the `rcv` op of engine `part` runs against real sender → receiver sessions, as ONE statement about
+    the model's own `cleanSession` (not about a driver-private re-implementation): for every scheme, `0 < B < 2^32`,
+    `0 < E < 2^16`, `0 < L < 2^48` and at most `2^32` blocks, a loss-free session completes - sender and receiver agree on
+    every block, also when the receiver partitions with the `B'` it rebuilt from `Z` (RaptorQ / Raptor) or takes the
+    wire-borne block length (RS under-specified) - and the receiver writes one chunk per block whose lengths sum to `L`,
+    every block but the last being `k·E` bytes long. -/
+theorem clean_session_completes (scheme b l e aL aS nL n : Nat) (hb : 0 < b) (he : 0 < e) (hl0 : 0 < l)
+    (hl : l < 2^48) (he16 : e < 2^16) (hb32 : b < 2^32) (hn32 : n ≤ 2^32)
+    (hq : blockPartitioning b l e = .ok (aL, aS, nL, n)) :
+    ∃ ls : List Nat, cleanSession scheme b l e = .ok (some (ls.map Except.ok)) ∧ ls.length = n ∧ ls.sum = l ∧
+      ∀ sbn, sbn + 1 < n → ls[sbn]? = some ((if sbn < nL then aL else aS) * e) := by
+  have hcov := partition_covers b l e hb he hl0
+  have hnN : n = (rfc5052 l e b).N := by
+    have hq' := hq
+    rw [partition_eq_rfc b l e hb he (by omega)] at hq'
+    have hN0 : (rfc5052 l e b).N ≠ 0 := by have := hcov.2.2.2.2.1; omega
+    simp only [hN0, if_false] at hq'
+    injection hq' with hq'
+    simp only [Prod.mk.injEq] at hq'
+    exact hq'.2.2.2.symm
+  have hn0 : 0 < n := by rw [hnN]; exact hcov.2.2.2.2.1
+  have hnl : n ≤ l + 1 := by
+    have ⟨_, h2, _, _, _⟩ := spec_fields b l e hb he hl0
+    have hT : 0 < divCeil l e := divCeil_pos l e he hl0
+    have ⟨_, hNT, _⟩ := nblocks_bounds (divCeil l e) b hT hb
+    have := divCeil_le_self l e he
+    rw [hnN, h2]; omega
+  obtain ⟨ls, hmap, hlen, hsum, hmid⟩ := block_lengths_model b l e aL aS nL n hb he hl0 hl he16 hq
+  refine ⟨ls, ?_, hlen, hsum, hmid⟩
+  have hrx : blockPartitioning (if scheme = 3 ∨ scheme = 4 then reconstructB32 l e n else b) l e
+      = .ok (aL, aS, nL, n) := by
+    split
+    · obtain ⟨_, _, _, _, _, _, h⟩ :=
+        sender_receiver_agree b l e aL aS nL n 0 hb he hl0 hl he16 hb32 hn32 hq hn0 (l + 1) hnl
+      exact h
+    · exact hq
+  have hagree : (decide ((senderBlocks (aL, aS, nL, n) l e (l + 1) 0 0).length = n) &&
+      (List.range n).all fun sbn =>
+        decide (((senderBlocks (aL, aS, nL, n) l e (l + 1) 0 0).getD sbn (0, 0, 0)).1 =
+          (if scheme = 2 then ((senderBlocks (aL, aS, nL, n) l e (l + 1) 0 0).getD sbn (0, 0, 0)).1
+           else receiverBlockSymbols (aL, aS, nL, n) sbn))) = true := by
+    rw [Bool.and_eq_true]
+    constructor
+    · rw [sender_blocks_eq_rfc b l e aL aS nL n hb he hl0 (by omega) hq (l + 1) hnl]
+      simp
+    · rw [List.all_eq_true]
+      intro sbn hs
+      rw [List.mem_range] at hs
+      obtain ⟨k, s, en, hget, hk, _, _⟩ :=
+        sender_receiver_agree b l e aL aS nL n sbn hb he hl0 hl he16 hb32 hn32 hq hs (l + 1) hnl
+      rw [List.getD_eq_getElem?_getD, hget]
+      simp only [Option.getD_some]
+      split
+      · simp
+      · simp [hk]
+  unfold cleanSession
+  simp only [hq, hrx]
+  rw [if_pos hagree, hmap]
+
 /-! ### non-vacuity: concrete instances meeting the hypotheses, with unequal blocks -/
 
 example : blockPartitioning 3 23 4 = .ok (3, 3, 0, 2) := by rfl
@@ -420,5 +479,7 @@ example : senderBlocks (5, 4, 6, 7) 100 3 7 0 0 =
 example : receiverBlockSymbols (5, 4, 6, 7) 5 = 5 ∧ receiverBlockSymbols (5, 4, 6, 7) 6 = 4 := by decide
 example : reconstructB 100 3 7 = 5 ∧ blockPartitioning 6 100 3 = .ok (6, 5, 4, 6) ∧ reconstructB 100 3 6 = 6 :=
   ⟨by decide, by rfl, by decide⟩
+example : cleanSession 3 5 100 3 = .ok (some ([15, 15, 15, 15, 15, 15, 10].map Except.ok)) := by rfl
+example : cleanSession 2 4 23 4 = .ok (some ([12, 11].map Except.ok)) := by rfl
 
 end Flute.Props.C07
